@@ -78,6 +78,7 @@ inductive Parent where
   | list (cs : List Name)      -- Projection(x, [..])
   | scalar (c : Name)          -- Projection(x, 'c')  (a Series when x is a frame)
   | listS (cs : List Name)     -- Projection(s, [..]) over a 1-d `s` (labels of a reduction result): ndim == 1
+  | scalarS (c : Name)         -- Projection(s, 'c') over a 1-d `s`: ndim == 0
   | index                      -- Index(x)            (Merge rule only)
   deriving DecidableEq, Repr
 
@@ -86,11 +87,13 @@ def Parent.cols : Parent → List Name
   | .list cs => cs
   | .scalar c => [c]
   | .listS cs => cs
+  | .scalarS c => [c]
   | .index => []
 
 /-- `parent.ndim == 1` (over a frame) -/
 def Parent.ndim1 : Parent → Bool
   | .list _ => false
+  | .scalarS _ => false
   | _ => true
 
 /-- `parent.operand("columns")` -/
@@ -98,6 +101,7 @@ def Parent.operand : Parent → Sel
   | .list cs => .many cs
   | .scalar c => .one c
   | .listS cs => .many cs
+  | .scalarS c => .one c
   | .index => .many []
 
 /-- a live dependent: its `_projection_columns` and whether `ndim == 1` -/
@@ -204,7 +208,8 @@ def rename (frame : List Name) (mapping : List (Name × Name)) (p : Parent) (dep
 /-- `col[n:]` -/
 def slicePrefix (n : Nat) (c : Name) : Name := String.ofList (c.toList.drop n)
 /-- `col[:-n]` (python: `col[:-0]` is the empty string) -/
-def sliceSuffix (n : Nat) (c : Name) : Name := String.ofList (c.toList.take (c.toList.length - n))
+def sliceSuffix (n : Nat) (c : Name) : Name :=
+  if n = 0 then "" else String.ofList (c.toList.take (c.toList.length - n))
 
 /-- `AddPrefix/AddSuffix._simplify_up`; `n` = length of the prefix / suffix -/
 def affix (isSuffix : Bool) (n : Nat) (frame : List Name) (p : Parent) (deps : List Dep) : Option Rw :=
